@@ -841,24 +841,52 @@ def attr_set_ir():
 
     def body(f):
         return [ast.unparse(x) for x in f.body if not (isinstance(x, ast.Expr) and isinstance(x.value, ast.Constant))]
-    b = body(sa)
-    if len(b) != 7:
-        raise Fail('_set_attributes: %d statements' % len(b))
+    sb = [x for x in sa.body if not (isinstance(x, ast.Expr) and isinstance(x.value, ast.Constant))]
+    b = [ast.unparse(x) for x in sb]
     path_common, none_path, value_path = [], [], []
-    if b[0] != 'if val is None:\n    return':
+    if len(b) < 6 or b[0] != 'if val is None:\n    return':
         raise Fail('_set_attributes[0]')
     if not (b[1].startswith('if self.TYPE.get_xsd_tree().is_simple_type:\n    if val:\n        raise XSDWrongAttribute(') and b[1].endswith('elif not isinstance(val, dict):\n    raise TypeError')):
         raise Fail('_set_attributes[1]')
     path_common += ['Raise', 'Raise']
-    if b[2] != 'new_attributes = replace_key_underline_with_hyphen(dict_=val)' or b[3] != 'none_values_dict = {k: v for k, v in new_attributes.items() if v is None}':
-        raise Fail('_set_attributes[2-3]')
+    if b[2] != 'new_attributes = replace_key_underline_with_hyphen(dict_=val)':
+        raise Fail('_set_attributes[2]')
+    # the rest, read by what each statement DOES (names, comprehension vs loop, try/except vs pop default are free):
+    #   Read*      locals computed from new_attributes (the keys whose value is None)
+    #   PopNone    a loop over those keys that only pops them from new_attributes and from the element's attribute dict
+    #   Validate   a loop over what is left that only calls self._check_attribute(key, value) for every entry
+    #   Merge      self._attributes = {**self._attributes, **new_attributes}
+    kinds = []
+    nonekeys = set()
+    for st in sb[3:]:
+        u = ast.unparse(st)
+        if isinstance(st, ast.Assign) and len(st.targets) == 1 and isinstance(st.targets[0], ast.Name) and isinstance(st.value, (ast.DictComp, ast.ListComp, ast.SetComp)) \
+                and len(st.value.generators) == 1 and ast.unparse(st.value.generators[0].iter) == 'new_attributes.items()' \
+                and len(st.value.generators[0].ifs) == 1 and isinstance(st.value.generators[0].ifs[0], ast.Compare) and ast.unparse(st.value.generators[0].ifs[0]).endswith(' is None'):
+            nonekeys.add(st.targets[0].id)
+            kinds.append('Read')
+        elif isinstance(st, ast.For) and not st.orelse and isinstance(st.target, ast.Name) and isinstance(st.iter, ast.Name) and st.iter.id in nonekeys:
+            k_ = st.target.id
+            ok = len(st.body) == 2 and ast.unparse(st.body[0]) == 'new_attributes.pop(%s)' % k_
+            second = ast.unparse(st.body[1]) if ok else ''
+            ok = ok and second in ('try:\n    self.attributes.pop(%s)\nexcept KeyError:\n    pass' % k_, 'self.attributes.pop(%s, None)' % k_, 'self._attributes.pop(%s, None)' % k_)
+            if not ok:
+                raise Fail('_set_attributes: the loop over the None keys does more than pop them')
+            kinds.append('PopNone')
+        elif isinstance(st, ast.For) and not st.orelse and len(st.body) == 1:
+            tg, it, bd = ast.unparse(st.target), ast.unparse(st.iter), ast.unparse(st.body[0])
+            if (it == 'new_attributes' and bd == 'self._check_attribute(%s, new_attributes[%s])' % (tg, tg)) or \
+               (it == 'new_attributes.items()' and isinstance(st.target, ast.Tuple) and len(st.target.elts) == 2 and bd == 'self._check_attribute(%s, %s)' % (ast.unparse(st.target.elts[0]), ast.unparse(st.target.elts[1]))):
+                kinds.append('Validate')
+            else:
+                raise Fail('_set_attributes: unrecognised loop: ' + u[:80])
+        elif u == 'self._attributes = {**self._attributes, **new_attributes}':
+            kinds.append('Merge')
+        else:
+            raise Fail('_set_attributes: unrecognised statement: ' + u[:80])
+    if kinds != ['Read', 'PopNone', 'Validate', 'Merge']:
+        raise Fail('_set_attributes: order of effects is %s' % kinds)
     path_common += ['Read', 'Read']
-    if b[4] != 'for key in none_values_dict:\n    new_attributes.pop(key)\n    try:\n        self.attributes.pop(key)\n    except KeyError:\n        pass':
-        raise Fail('_set_attributes[4]')
-    if b[5] != 'for key in new_attributes:\n    self._check_attribute(key, new_attributes[key])':
-        raise Fail('_set_attributes[5]')
-    if b[6] != 'self._attributes = {**self._attributes, **new_attributes}':
-        raise Fail('_set_attributes[6]')
     none_path = path_common + ['Store', 'Store']          # a key whose value is None: popped, nothing to check, merge of an empty dict
     value_path = path_common + ['Validate', 'Store']      # a key with a value: checked, then stored by the merge
     many_path = path_common + ['Store', 'Validate', 'Store']
@@ -877,7 +905,13 @@ def attr_set_ir():
             for tg in (n.targets if isinstance(n, ast.Assign) else [n.target]):
                 if not isinstance(tg, ast.Name):
                     raise Fail('_check_attribute stores')
-    d = body(st_)
+    stb = [x for x in st_.body if not (isinstance(x, ast.Expr) and isinstance(x.value, ast.Constant))]
+    if len(stb) == 2 and isinstance(stb[0], ast.If) and not stb[0].orelse and isinstance(stb[0].body[-1], ast.Return) and stb[0].body[-1].value is None and isinstance(stb[1], ast.If):
+        # if A: X; return  /  if B: ... else: ...   ==   if A: X  elif B: ... else: ...
+        merged = ast.If(test=stb[0].test, body=stb[0].body[:-1], orelse=[stb[1]])
+        d = [ast.unparse(ast.fix_missing_locations(merged))]
+    else:
+        d = [ast.unparse(x) for x in stb]
     exp = ("if key[0] == '_' or key in self._PROPERTIES:\n    super().__setattr__(key, value)\nelif key.startswith('xml_'):\n    try:\n        self._convert_attribute_to_child(name=key, value=value)\n"
            "    except NameError:\n        raise AttributeError(self._get_attributes_error_message(key))\nelse:\n    try:\n        self._set_attributes({key: value})\n    except XSDWrongAttribute:\n"
            "        raise AttributeError(self._get_attributes_error_message(key))")
